@@ -1,6 +1,7 @@
 package vc
 
 import (
+	"os"
 	"go/types"
 	"sort"
 	"strings"
@@ -234,7 +235,13 @@ func (e *Engine) assumeWellTyped(st *State, v Val) {
 		}
 		switch {
 		case c.Sort == RefSort && (strings.HasSuffix(c.Suffix, ".r") || strings.HasSuffix(c.Suffix, ".p")):
-			facts = append(facts, e.X.Ult(t, st.Alloc))
+			if isInitialHeapRead(t) && e.alloc0 != nil && os.Getenv("GOVC_NOH0") == "" {
+				// a reference read from the heap as it was at entry predates every allocation of the call
+				facts = append(facts, e.X.Ult(t, e.alloc0))
+				e.X.OldRef[t.ID()] = true
+			} else {
+				facts = append(facts, e.X.Ult(t, st.Alloc))
+			}
 		case c.Sort == TagSort && strings.HasSuffix(c.Suffix, ".t") && i+1 < len(cs) && strings.HasSuffix(cs[i+1].Suffix, ".v"):
 			// a nil interface has no payload
 			facts = append(facts, e.X.Implies(e.X.Eq(t, e.X.Const(0, 32)), e.X.Eq(v.C[i+1], e.X.Const(0, 64))))
@@ -269,4 +276,12 @@ func (e *Engine) opaqueFunc(v Val) Val {
 		bail("closure with captured variables stored in the heap")
 	}
 	return Val{T: v.T, C: []*smt.Term{e.X.Const(uint64(id), 32)}}
+}
+
+// isInitialHeapRead: t is select(H0, r) or select(select(H0, r), i) for an entry-state heap variable H0.
+func isInitialHeapRead(t *smt.Term) bool {
+	for t.Op == "select" {
+		t = t.Args[0]
+	}
+	return t.Op == "var" && strings.HasPrefix(t.Name, "H0")
 }
